@@ -5,7 +5,7 @@
     (terminating pods disappear, created pods become Ready), the clock advances, and the active replica set
     syncs once with the creation and deletion budgets of [Limits.v] - the SAME [calc_create] / [calc_delete]
     the sync model uses. *)
-From EDS Require Import Model.Objects Model.Limits.
+From EDS Require Import Model.Objects Model.Fitness Model.PodSpec Model.Limits Model.Rolling.
 
 Record astate := MkA {
   a_missing : Z;        (* eligible nodes without a pod *)
@@ -59,3 +59,9 @@ Definition a_converged (s : astate) : Prop :=
 
 Fixpoint a_rounds (n : nat) (maxc mu : Z) (s : astate) : astate :=
   match n with O => s | S k => a_rounds k maxc mu (a_round maxc mu s) end.
+
+(** ** the abstraction of a list of planning items of the sync model: the six class counts *)
+Definition c_up_notready c := match c with UpToDate false => true | _ => false end.
+Definition abs_of (rs : ers) (now : time) (items : list nitem) : astate :=
+  let c f := count_if (is_class f rs now) items in
+  MkA (c c_nopod) (c c_ready) (c c_up_notready) (c c_oldavail) (c c_oldunavail) (c c_oldterm).
